@@ -202,6 +202,19 @@ def run_check(prop, modname, tier="quick", seed=0, procs=None, level="proof", as
         errors.append(("vacuity", ["jobs without any obligation: %s" % vac["jobs_with_zero_obligations"][:5]]))
 
     wall = time.time() - t0
+    if os.environ.get("PYVC_REBASELINE"):
+        p = os.path.join(ROOT, "baseline", "obligations.json")
+        os.makedirs(os.path.dirname(p), exist_ok=True)
+        base = json.load(open(p)) if os.path.exists(p) else {"ids": {}}
+        base["ids"] = {k: v for k, v in base["ids"].items() if not (v.get("property") == prop and tier in v.get("tiers", []) and len(v.get("tiers", [])) == 1)}
+        for o in outs:
+            for name, ob in o["obligations"].items():
+                if ob["status"] in ("proved", "passed-bounded"):
+                    e = base["ids"].setdefault(o["id"] + "::" + name, {"property": prop, "kind": o["kind"], "tiers": []})
+                    if tier not in e["tiers"]:
+                        e["tiers"].append(tier)
+        json.dump(base, open(p, "w"), indent=0, sort_keys=True)
+        print("rebaselined %s/%s: %d ids total" % (prop, tier, len(base["ids"])))
     os.makedirs(os.path.join(ROOT, "evidence"), exist_ok=True)
     os.makedirs(os.path.join(ROOT, "replays"), exist_ok=True)
     lines = []
